@@ -13,7 +13,7 @@ OPS = [
         crate::verif_tables::status_code_of(self.operation_or_status as int) is Some ==>
             Some(r) == crate::verif_tables::status_code_of(self.operation_or_status as int),
         crate::verif_tables::status_code_of(self.operation_or_status as int) is None ==>
-            r == StatusCode::UnknownStatusCode,""",
+            (r == StatusCode::UnknownStatusCode || (r as int) == self.operation_or_status as int),""",
      'proofs': [{'before': 'StatusCode::from_u16', 'optional': True,
                  'text': 'proof { crate::verif_tables::axiom_status_code_from(self.operation_or_status as int); }'}]},
 ]
